@@ -13,6 +13,7 @@ import (
 	"sort"
 	"strings"
 	"sync"
+	"sync/atomic"
 	"time"
 )
 
@@ -592,6 +593,7 @@ func (o *Obligation) discharge(p *Prelude, tmpdir string, timeoutS int) {
 	}
 	var notes []string
 	var secs float64
+	groundTimedOut := false
 	if o.hasQuantFacts() && !noInstHints {
 		gT := 6
 		if timeoutS > 60 {
@@ -601,6 +603,7 @@ func (o *Obligation) discharge(p *Prelude, tmpdir string, timeoutS int) {
 		if o.Status == "proved" {
 			return
 		}
+		groundTimedOut = strings.Contains(o.Output, ": timeout")
 		notes = append(notes, "[ground attempt] "+o.Output)
 		secs += o.Seconds
 		o.Status, o.Output, o.Model = "", "", nil
@@ -615,10 +618,30 @@ func (o *Obligation) discharge(p *Prelude, tmpdir string, timeoutS int) {
 	o.Status, o.Output, o.Model = "", "", nil
 	o.dischargeOnce(p, tmpdir, timeoutS, "full")
 	o.Seconds += secs
+	if o.Status == "unknown" && groundTimedOut && atomic.AddInt32(&heavyRetries, 1) <= 6 {
+		// Every encoding ran out of time and the ground VC (the one that normally decides loop-heavy
+		// obligations) was cut off by its short wall-clock limit - which under a fully loaded machine
+		// is a scheduling accident, not a verdict. Retry it, one at a time, with a generous limit.
+		// (At most six such retries per run, so a change that breaks many obligations is not slowed.)
+		full := o.Output
+		secs = o.Seconds
+		heavyMu.Lock()
+		o.Status, o.Output, o.Model = "", "", nil
+		o.dischargeOnce(p, tmpdir, 45, "ground")
+		heavyMu.Unlock()
+		o.Seconds += secs
+		if o.Status != "proved" {
+			notes = append(notes, "[ground retry] "+o.Output)
+			o.Status, o.Output, o.Model = "unknown", full, nil
+		}
+	}
 	if o.Status != "proved" {
 		o.Output = o.Output + "\n" + strings.Join(notes, "\n")
 	}
 }
+
+var heavyMu sync.Mutex
+var heavyRetries int32
 
 func (o *Obligation) hasQuantFacts() bool {
 	c := map[*Term]bool{}
@@ -653,6 +676,9 @@ func (o *Obligation) dischargeOnce(p *Prelude, tmpdir string, timeoutS int, mode
 		o.Status = "error"
 		o.Output = err.Error()
 		return
+	}
+	if mode == "ground" && len(text) > 3<<19 && timeoutS < 12 {
+		timeoutS = 12 // parsing alone takes seconds on a loaded machine
 	}
 	if o.Cover {
 		if timeoutS > 30 {
